@@ -31,6 +31,21 @@ def err_sig(e):
     return re.sub(r"[0-9(),\[\]'-]+", "#", f"{type(e).__name__}: {e}")[:36]
 
 
+def flat_nd_arg_tie(prog, sources):
+    """does the program contain argmin/argmax(axis=None) over an N-D value whose extremum occurs more than once?  (finding F10:
+    which of the equal extrema is reported follows the block grid / tree shape)"""
+    for q in progs.all_nodes(prog):
+        if q[0] == "reduce" and "arg" in q[1] and q[3] is None:
+            try:
+                v = np.asarray(progs.eval_np(q[2], sources))
+                ext = np.nanmin(v) if "min" in q[1] else np.nanmax(v)
+                if v.ndim > 1 and int(np.sum(v == ext)) > 1:
+                    return True
+            except Exception:  # noqa: BLE001
+                continue
+    return False
+
+
 def run_history(chk, da, rng, hid):
     # several programs over one shared pool of sources and sub-programs (shared subtrees across collections)
     g = progs.Gen(rng, ops=progs.CORE_OPS, sources=[])
@@ -95,7 +110,7 @@ def run_history(chk, da, rng, hid):
             chk.violation(f"value depends on history/configuration ({why})",
                           {"program": progs.show(p), "history": [(a, j, c) for a, j, c in steps[: sidx + 1]], "members": [progs.show(q) for q, _ in members],
                            "config": cfg, **progs.describe(p, sources)},
-                          signature={"class": "value", "config_keys": sorted(cfg)})
+                          signature={"class": "value", "config_keys": sorted(cfg), "flat_nd_arg_tie": flat_nd_arg_tie(p, sources)})
     _materialize._LOWER_CACHE.clear()
 
 
